@@ -18,6 +18,10 @@ impl Layers {
         proof { assert(((a | b) & b) == b) by(bit_vector); }
         self.bits = a | b;
     }
+    /// `self ^= other` (bitflags: toggle)
+    pub fn toggle(&mut self, other: Layers)
+        ensures final(self).bits == old(self).bits ^ other.bits,
+    { self.bits = self.bits ^ other.bits; }
     /// `self &= !other` (bitflags: remove)
     pub fn remove(&mut self, other: Layers)
         ensures final(self).bits == old(self).bits & !other.bits,
